@@ -207,6 +207,7 @@ pub const F23: &str = "F23-rangeproof-full-range";
 pub const F24: &str = "F24-remove-count-underflow";
 pub const F25: &str = "F25-serde-taptree-serialize";
 pub const F26: &str = "F26-serde-hexbytes-capacity";
+pub const F27: &str = "F27-serde-commitment-length";
 /// input class of F18 at the PSET level: some input/output map carries a commitment-typed proprietary field
 /// (input: issuance value / inflation keys commitment; output: value / asset commitment) whose value is not 33 bytes long
 fn pset_short_commitment(b: &[u8]) -> bool {
@@ -243,10 +244,6 @@ fn set_emergency(case: &str) {
 }
 
 // ================================================================================================ verdicts
-pub const F1: &str = "F1-new-bech32-empty-data";
-pub const F2: &str = "F2-xpub-underflow";
-pub const F12: &str = "F12-blind-nothing-marked";
-pub const F16: &str = "F16-serde-builder-finalize";
 pub const F17: &str = "F17-fee-sum-overflow";
 
 /// `class`: the input class a known finding is restricted to (None = no known finding applies to this input)
@@ -499,9 +496,8 @@ fn eval_hrp(w: &[&str]) -> Out {
         part("new", &|| seg(SegwitHrpstring::new(&s))),
         part("nb", &|| seg(SegwitHrpstring::new_bech32(&s))),
     ];
-    // input class of F1: the string parses as an unchecked hrpstring whose data part is empty
-    let f1_class = s.ends_with('1') && UncheckedHrpstring::new(&s).is_ok();
-    finish(parts.join(" "), &all, if f1_class { Some((F1, "src/blech32/decode.rs", "index out of bounds")) } else { None }, Some(5 * small_bound(s.len())))
+    // F1 (fixed by a4bc64e) is no known finding any more: a panic of new_bech32 on an empty data part fails the check
+    finish(parts.join(" "), &all, None, Some(5 * small_bound(s.len())))
 }
 
 // ---- taproot / schnorr slice parsers
@@ -595,8 +591,8 @@ fn eval_sbuilder(w: &[&str]) -> Out {
         let complete = b.is_complete();
         match b.finalize(zkp::SECP256K1, gkey()) { Ok(_) => format!("ok complete={}", complete as u8), Err(e) => format!("err {} complete={}", berr_name(&e), complete as u8) }
     });
-    let class = pat.len() == 1 && pat[0] == "n";
-    finish(r.unwrap_or_else(|| "panic".into()), &obs, if class { Some((F16, "src/taproot.rs", "Builder invariant")) } else { None }, Some(small_bound(json.len()) + 65536))
+    // F16 (fixed by c723f02) is no known finding any more
+    finish(r.unwrap_or_else(|| "panic".into()), &obs, None, Some(small_bound(json.len()) + 65536))
 }
 
 // ---- Global::merge, xpub branch
@@ -622,11 +618,8 @@ fn eval_xpub(w: &[&str]) -> Out {
             Err(_) => "err conflict".to_string(),
         }
     });
-    // input class of F2: the incoming (other) path is strictly shorter than self's and is not its suffix (the first two arms do not apply)
-    let class = p1.len() < p2.len() && p2[p2.len() - p1.len()..] != p1[..];
-    // debug: `attempt to subtract with overflow`; release: the wrapped start index is out of range
-    let needle = if obs.panics.iter().any(|(_, m)| m.contains("subtract with overflow")) { "subtract with overflow" } else { "out of range for slice" };
-    finish(r.unwrap_or_else(|| "panic".into()), &obs, if class { Some((F2, "src/pset/map/global.rs", needle)) } else { None }, Some(1 << 20))
+    // F2 (fixed by 4b01389) is no known finding any more
+    finish(r.unwrap_or_else(|| "panic".into()), &obs, None, Some(1 << 20))
 }
 
 // ---- Transaction::blind output selection
@@ -658,8 +651,8 @@ fn eval_blindsel(w: &[&str]) -> Out {
             Err(e) => format!("err {}", match e { elements::BlindError::InvalidAddress => "address", elements::BlindError::TooFewBlindingOutputs => "toofew", elements::BlindError::MustHaveAllExplicitTxOuts => "explicit", _ => "other" }),
         }
     });
-    let class = !marks.iter().any(|c| *c == 'm' || *c == 'x');
-    finish(r.unwrap_or_else(|| "panic".into()), &obs, if class { Some((F12, "src/blind.rs", "Internal output calculation error")) } else { None }, None)
+    // F12 (fixed by 8d5600e) is no known finding any more
+    finish(r.unwrap_or_else(|| "panic".into()), &obs, None, None)
 }
 
 // ---- Pset::locktime
@@ -916,7 +909,8 @@ fn eval_explore(kind: &str, w: &[&str]) -> Out {
             let marked = tx.output.iter().any(|o| !o.is_fee() && o.nonce.is_confidential());
             let all_explicit = tx.output.iter().all(|o| o.asset.is_explicit() && o.value.is_explicit());
             let (_, obs) = guard(|| { let _ = tx.blind(&mut rng, zkp::SECP256K1, &secs, seed % 2 == 0); });
-            finish("total".into(), &obs, if !marked && all_explicit { Some((F12, "src/blind.rs", "Internal output calculation error")) } else { None }, None)
+            let _ = (marked, all_explicit);
+            finish("total".into(), &obs, None, None)
         }
         "x-sighash" => {
             use elements::sighash::{Prevouts, SighashCache};
@@ -1023,6 +1017,19 @@ fn eval_explore(kind: &str, w: &[&str]) -> Out {
             let huge = b.windows(9).any(|x| x[0] == 0x9b && u64::from_be_bytes(x[1..9].try_into().unwrap()) > (1 << 62));
             let (_, obs) = guard(|| { let _ = serde_cbor::from_slice::<elements::dynafed::Params>(&b); let _ = serde_cbor::from_slice::<BlockHeader>(&b); });
             finish("total".into(), &obs, if huge { Some((F26, "alloc/src/raw_vec", "capacity overflow")) } else { None }, Some(small_bound(b.len()) + (1 << 20)))
+        }
+        "x-cbor-commit" => {
+            // F27: Value / Asset Deserialize (non-human-readable formats) reach secp256k1-zkp's own Deserialize for PedersenCommitment /
+            // Generator, which calls from_slice on a byte string of any length
+            if w.len() != 3 { return Out::ok("harnesserr args".into()); }
+            let Some(b) = unhex_dash(w[2]) else { return Out::ok("harnesserr hex".into()) };
+            // the commitment byte string inside the CBOR array [2, h'..']
+            let blen = if b.len() >= 3 && b[0] == 0x82 && b[1] == 0x02 && (0x40..=0x57).contains(&b[2]) { Some((b[2] - 0x40) as usize) } else if b.len() >= 4 && b[0] == 0x82 && b[1] == 0x02 && b[2] == 0x58 { Some(b[3] as usize) } else { None };
+            let (r, obs) = guard(|| (serde_cbor::from_slice::<confidential::Value>(&b).is_ok(), serde_cbor::from_slice::<confidential::Asset>(&b).is_ok()));
+            let mut out = finish("total".into(), &obs, None, Some(small_bound(b.len()) + (1 << 20)));
+            if out.pred_fail.is_none() { if let (Some((v, a)), Some(l)) = (r, blen) { if (v || a) && l != 33 {
+                out.pred_fail = Some(format!("{}|a {}-byte string was deserialized as a 33-byte commitment (secp256k1-zkp's Deserialize calls from_slice without a length test; bytes behind the string were read)", F27, l)); } } }
+            out
         }
         "x-text" => {
             if w.len() != 3 { return Out::ok("harnesserr args".into()); }
